@@ -187,6 +187,8 @@ class Notes:
             datas = ("param", ps[1])
         LEN = ("call", ("builtin", "len"), (datas,), ())
         outer = [l for l in s.loops.values() if l.parent is None]
+        if len(outer) == 1 and outer[0].kind == "for" and len(s.loops) == 1 and self._groupby_form(r, rc, bf, s, outer[0], datas):
+            return
         if len(outer) != 1 or outer[0].kind != "while":
             fail(r, ctx, bf, bf.node, f"grouping must be one outer `while i < len(datas)` loop (schema S1); found "
                                       f"{[(l.kind) for l in outer]} -- a different skeleton is not covered by the verified "
@@ -314,6 +316,61 @@ class Notes:
             if upd is None or strip(upd) != strip(("proj", call.result, k)):
                 fail(rc, ctx, bf, L1.node, f"{what} cursor must be rebound to component {k} of the builder result (the cursor the "
                                            f"builder derived from its own {what} lookup); found {show(upd)[:200] if upd else None}")
+
+    def _groupby_form(self, r: Rule, rc: Rule, bf, s, loop, datas) -> bool:
+        """Second verified form of S1:  for _, g in itertools.groupby(datas, key=lambda d: d.tick): consumer(list(g), ...).
+        groupby yields maximal runs of equal keys, in order, covering every element once -- the S1 summary by definition.
+        Returns True when the loop is of this form (findings for its details are filed), False when it is another shape."""
+        ctx = self.ctx
+        it = loop.iter
+        if not (it is not None and it[0] == "call" and it[1] == ("ext", "itertools.groupby") and it[2] and strip(it[2][0]) == datas):
+            return False
+        key = dict(it[3]).get("key") or (it[2][1] if len(it[2]) > 1 else None)
+        okkey = False
+        if key is not None and key[0] in ("closure", "func"):
+            kf = ctx.prog.lambdas.get(key[1]) or ctx.prog.functions.get(key[1])
+            if kf is not None:
+                okkey = ctx.ev.summary(kf).ret_term() == ("attr", ("param", kf.params()[0]), "tick")
+        if not okkey:
+            fail(r, ctx, bf, loop.node, f"groupby key must be the datum's tick (lambda d: d.tick); found {show(key)[:100] if key else None}")
+        group = ("proj", ("elem", loop.id), 1)
+        calls = [c for c in s.calls if c.fn == ("func", self.f.qual)]
+        if len(calls) != 1 or calls[0].loops != (loop.id,) or [x for x in calls[0].cond if x[0][0] != "inloop"]:
+            fail(r, ctx, bf, loop.node, f"each group must be handed to NoteEvent.from_parsed_data exactly once, unconditionally; found {len(calls)} call(s)")
+            return True
+        call = calls[0]
+        kw = dict(call.kwargs)
+        fps = self.f.params()
+        g = kw.get(fps[1])
+        if strip(g) not in (("call", ("builtin", "list"), (group,), ()), ("call", ("builtin", "tuple"), (group,), ())):
+            fail(r, ctx, bf, call.node, f"the note builder must receive the whole group materialised (list(group)); receives {show(g)[:120]}")
+        ex = live_exits(s)
+        acc = ex[0].value if len(ex) == 1 and ex[0].kind == "ret" and not ex[0].loops else None
+        if acc is None or acc[0] != "list" or acc[1]:
+            fail(r, ctx, bf, bf.node, "note builder must return its own fresh list once, after the loop")
+            return True
+        appends = [e for e in s.effects if e.kind == "mutcall" and e.key == "append" and e.target == acc]
+        for e in s.effects:
+            if e not in appends:
+                fail(r, ctx, bf, e.node, f"note builder has an extra effect: {e.kind} {e.key}")
+        if len(appends) != 1 or appends[0].loops != (loop.id,) or strip(appends[0].value[0]) != strip(("proj", call.result, 0)):
+            fail(r, ctx, bf, loop.node, "each group's event must be appended exactly once per group")
+        PREV = ("ite", acc, ("sub", acc, ("const", -1)), ("const", None))
+        if strip(kw.get(fps[2])) != strip(PREV):
+            fail(r, ctx, bf, call.node, f"predecessor must be the last appended event; found {show(kw.get(fps[2]))[:120]}")
+        if self.parts is not None:
+            for (pi, what) in ((5, "tempo"), (6, "star-power")):
+                a = kw.get(fps[pi])
+                k = 1 if pi == 5 else 2
+                if a is None or a == ("const", 0):
+                    continue
+                if not (a[0] == "lv" and a[1] == loop.id):
+                    fail(rc, ctx, bf, call.node, f"{what} cursor argument must be the loop-carried cursor variable; found {show(a)[:100]}")
+                    continue
+                init, upd = loop.carried.get(a[2], (None, None))
+                if init != ("const", 0) or upd is None or strip(upd) != strip(("proj", call.result, k)):
+                    fail(rc, ctx, bf, loop.node, f"{what} cursor must start at 0 and be rebound to component {k} of the builder result")
+        return True
 
     # ------------------------------------------------------------------ lanes
     def lane_predicate_true_set(self, fq: str) -> Optional[set]:
